@@ -11,7 +11,7 @@ Definition eRepr (r : repr) : Tree := L [eFmt (rfmt r); eCS (cs_of_repr r)].
 Definition tAcc (t : Tree) : accessor :=
   match tZ t with
   | 0%Z => ANnz | 1%Z => AGetRow | 2%Z => AGetCol | 3%Z => AIterObs | 4%Z => AIterSamp
-  | 5%Z => ACell | _ => ARead
+  | 5%Z => ACell | 7%Z => AToHdf5 | 8%Z => AToJson | _ => ARead
   end.
 
 (* op: [0; i; acc] | [1; i; j; kind] with kind 0 ==, 1 !=, 2 descriptive_equality | [2; i] copy *)
@@ -27,7 +27,8 @@ Definition observe (w : world) (ok : op * Z) : Tree :=
   let w' := step w (fst ok) in
   match fst ok with
   | OAcc i a =>
-      L [match a with ANnz => eN (nnz_value (wget w i)) | _ => I (-1)%Z end; eRepr (rep (wget w' i))]
+      L [match a with ANnz => eN (nnz_value (wget w i)) | _ => I (-1)%Z end; eRepr (rep (wget w' i));
+         eB (coherentb (wget w' i))]
   | OEq i j =>
       let a := wget w i in let b := wget w j in
       L [match snd ok with
